@@ -280,6 +280,7 @@ def main(argv=None):
         return 1
 
     tier = args.tier
+    os.environ['VERIF_TIER_EFFECTIVE'] = tier
     budget = args.budget or float(os.environ.get('VERIF_BUDGET_S') or TIER_BUDGET[tier])
     print('# %s tier=%s seed=%d budget=%.0fs src=%s' % (prop.ID, tier, base, budget, SRC_ROOT))
     sys.stdout.flush()
